@@ -161,9 +161,9 @@ pub fn run(ctx: &mut Ctx) {
         passes_table(ctx);
     }
     let n = match ctx.prop.as_str() {
-        "C13" => ctx.budget(8_000, 400_000),
-        "C14" => ctx.budget(10_000, 500_000),
-        _ => ctx.budget(6_000, 300_000),
+        "C13" => ctx.budget(100_000, 1_200_000),
+        "C14" => ctx.budget(100_000, 1_200_000),
+        _ => ctx.budget(50_000, 600_000),
     };
     for i in 0..n {
         let flavor = match ctx.prop.as_str() {
